@@ -227,7 +227,7 @@ pub struct Violation {
 
 fn prop_seed(seed: u64, id: &str, thread: u64) -> u64 {
     let mut h = DefaultHasher::new();
-    (seed, id, thread, crate::amt::BACKEND).hash(&mut h);
+    (seed, id, thread, crate::amt::BACKEND, cfg!(debug_assertions)).hash(&mut h);
     h.finish()
 }
 
@@ -388,6 +388,7 @@ pub fn run_property(p: &dyn Property, o: &RunOpts) -> RunResult {
     let evidence = json!({
         "property_id": p.id(),
         "backend": crate::amt::BACKEND,
+        "debug_assertions": cfg!(debug_assertions),
         "tier": if o.tier == Tier::Quick { "quick" } else { "thorough" },
         "seed": o.seed,
         "evaluations": total.evaluations,
